@@ -406,59 +406,99 @@ func linearize(c *JCase, all []*cop, global []JOut, wrecs []*wrec) {
 		applyEv(s, e)
 		states[p+1] = s
 	}
-	// attribute every commit to the operation that made it
-	used := map[*cop]bool{}
-	byPos := make([]*cop, m+1)
+	// candidates: the operations that can have made each commit. A successful write is identified by
+	// its fresh version; a delete event can belong to any successful delete with the same id, uid and
+	// version (the others hit nothing), so all attributions are tried.
+	cands := make([][]*cop, m)
 	for p, e := range commits {
-		var best *cop
 		for _, o := range all {
-			if used[o] {
-				continue
-			}
 			switch {
 			case e.Ev == "upsert" && o.op.T == "write" && o.out.T == "res" && resEq(*o.out.Res, *e.Res):
 			case e.Ev == "delete" && o.op.T == "delete" && o.out.T == "ok" && *o.op.ID == e.Res.ID && o.op.Uid == e.Res.Uid && o.op.Vsn == e.Res.Ver:
 			default:
 				continue
 			}
-			// a candidate that returned before an earlier commit was even invoked cannot be this commit
-			late := false
-			for q := 1; q <= p; q++ {
-				if byPos[q].start > o.end {
-					late = true
-				}
-			}
-			if late {
-				continue
-			}
-			if best == nil || o.end < best.end {
-				best = o
-			}
+			cands[p] = append(cands[p], o)
 		}
-		if best == nil {
-			failConc(c, "conc-event-without-operation", fmt.Sprintf("commit %d (%s %s v%s) was made by no recorded operation", p+1, e.Ev, e.Res.ID.Nm, e.Res.Ver))
+		if len(cands[p]) == 0 {
+			failConc(c, "conc-event-without-operation", fmt.Sprintf("commit %d (%s %v) was made by no recorded operation", p+1, e.Ev, *e.Res))
 			return
 		}
-		used[best] = true
-		best.pos = p + 1
-		byPos[p+1] = best
+		sort.Slice(cands[p], func(i, j int) bool { return cands[p][i].end < cands[p][j].end })
+	}
+	evCount := map[string]int{}
+	for _, e := range commits {
+		if e.Ev == "upsert" {
+			evCount[e.Res.ID.key()+"|"+e.Res.Ver]++
+		}
 	}
 	for _, o := range all {
-		if o.op.T == "write" && o.out.T == "res" && o.pos == 0 {
-			failConc(c, "conc-write-without-event", fmt.Sprintf("successful write of %s v%s never reached the wildcard watch", o.out.Res.ID.Nm, o.out.Res.Ver))
+		if o.op.T == "write" && o.out.T == "res" && evCount[o.out.Res.ID.key()+"|"+o.out.Res.Ver] != 1 {
+			failConc(c, "conc-write-without-event", fmt.Sprintf("successful write %v reached the wildcard watch %d times", *o.out.Res, evCount[o.out.Res.ID.key()+"|"+o.out.Res.Ver]))
 			return
 		}
 	}
-	// commit order must respect real time
-	for p := 1; p <= m; p++ {
-		for q := p + 1; q <= m; q++ {
-			if byPos[q].end < byPos[p].start {
-				failConc(c, "conc-commit-order-vs-real-time", fmt.Sprintf("commit %d finished before commit %d was invoked, yet is ordered after it", q, p))
-				return
+	byPos := make([]*cop, m+1)
+	used := map[*cop]bool{}
+	firstKind, firstDetail := "", ""
+	tries := 0
+	var attempt func(p int) bool
+	attempt = func(p int) bool {
+		if p == m {
+			tries++
+			kind, detail := place(c, all, byPos, states, m)
+			if kind == "" {
+				return true
 			}
+			if firstKind == "" {
+				firstKind, firstDetail = kind, detail
+			}
+			return false
 		}
+		for _, o := range cands[p] {
+			if used[o] || tries > 200 {
+				continue
+			}
+			// real time: o must not have returned before an earlier commit was invoked
+			okRT := true
+			for q := 1; q <= p; q++ {
+				if byPos[q].start > o.end {
+					okRT = false
+				}
+			}
+			if !okRT {
+				continue
+			}
+			used[o], byPos[p+1] = true, o
+			if attempt(p + 1) {
+				return true
+			}
+			used[o] = false
+		}
+		return false
 	}
-	// place the other operations
+	if !attempt(0) {
+		if firstKind == "" {
+			firstKind, firstDetail = "conc-commit-order-vs-real-time", "no attribution of the commits to operations respects the order in which the operations returned and were invoked"
+		}
+		failConc(c, firstKind, firstDetail)
+		return
+	}
+	// the watchers, against the commit order
+	for wi, w := range wrecs {
+		checkConcWatch(c, wi, w, commits, states)
+	}
+}
+
+// place puts the non-committing operations between the commits (attributed by byPos) and, on
+// success, writes the witness history into c.Steps.
+func place(c *JCase, all []*cop, byPos []*cop, states []map[string]JRes, m int) (string, string) {
+	for _, o := range all {
+		o.pos = 0
+	}
+	for p := 1; p <= m; p++ {
+		byPos[p].pos = p
+	}
 	var rest []*cop
 	for _, o := range all {
 		if o.pos == 0 {
@@ -490,9 +530,7 @@ func linearize(c *JCase, all []*cop, global []JOut, wrecs []*wrec) {
 		}
 		if o.gap < 0 {
 			ob, _ := jsonStr(o.op)
-			rb, _ := jsonStr(o.out)
-			failConc(c, "conc-no-linearization", fmt.Sprintf("%s -> %s (worker %d) is explained by no state between commits %d and %d", ob, rb, o.worker, lo, hi))
-			return
+			return "conc-no-linearization", fmt.Sprintf("%s -> %v (worker %d, [%d,%d]) is explained by no state between commits %d and %d", ob, o.out, o.worker, o.start, o.end, lo, hi)
 		}
 	}
 	// the witness history, as Store-level steps
@@ -500,6 +538,7 @@ func linearize(c *JCase, all []*cop, global []JOut, wrecs []*wrec) {
 	for _, o := range rest {
 		gaps[o.gap] = append(gaps[o.gap], o)
 	}
+	c.Steps = nil
 	emitOp := func(o *cop) {
 		op, out := o.op, o.out
 		if op.T == "write" {
@@ -523,10 +562,7 @@ func linearize(c *JCase, all []*cop, global []JOut, wrecs []*wrec) {
 			emitOp(o)
 		}
 	}
-	// the watchers, against the commit order
-	for wi, w := range wrecs {
-		checkConcWatch(c, wi, w, commits, states)
-	}
+	return "", ""
 }
 
 func checkConcWatch(c *JCase, wi int, w *wrec, commits []JOut, states []map[string]JRes) {
